@@ -1,5 +1,76 @@
 package main
 
-// tune handles the harness commands that supply inputs which cannot be given from outside
-// (SEID source, TEID cursor, DDN interval). Filled in as the corresponding hooks are added.
-func tune(f []string) {}
+import (
+	"math/rand"
+	"os"
+	"strconv"
+	"sync"
+	"time"
+
+	"github.com/omec-project/upf-epc/pfcpiface"
+)
+
+// Inputs that cannot be supplied from outside (DESIGN 3.3): the values the per-association random
+// source returns for UP SEID draws, the TEID cursor, the DDN interval.
+
+type seidSource struct {
+	mu    sync.Mutex
+	queue []uint64
+	fall  *rand.Rand
+	draws int
+}
+
+var seids = &seidSource{fall: rand.New(rand.NewSource(time.Now().UnixNano()))} // #nosec G404
+
+func (s *seidSource) Uint64() uint64 {
+	s.mu.Lock()
+	defer s.mu.Unlock()
+	s.draws++
+
+	if len(s.queue) > 0 {
+		v := s.queue[0]
+		s.queue = s.queue[1:]
+
+		return v
+	}
+
+	return s.fall.Uint64()
+}
+
+func (s *seidSource) Int63() int64 { return int64(s.Uint64() >> 1) }
+func (s *seidSource) Seed(int64)   {}
+
+func initTuning() {
+	pfcpiface.VerifSeidSource = func() rand.Source { return seids }
+
+	if ms, err := strconv.Atoi(os.Getenv("VERIF_DDN_MS")); err == nil && ms > 0 {
+		pfcpiface.VerifDdnInterval = time.Duration(ms) * time.Millisecond
+	}
+}
+
+// tune handles SEIDS <v>... and TEIDCURSOR <n>.
+func (h *hooks) tune(f []string) {
+	switch f[0] {
+	case "SEIDS":
+		seids.mu.Lock()
+		seids.queue = seids.queue[:0]
+
+		for _, x := range f[1:] {
+			if v, err := strconv.ParseUint(x, 10, 64); err == nil {
+				seids.queue = append(seids.queue, v)
+			}
+		}
+		seids.mu.Unlock()
+		h.send("OK SEIDS")
+	case "TEIDCURSOR":
+		if len(f) > 1 {
+			if v, err := strconv.ParseUint(f[1], 10, 32); err == nil {
+				if p, ok := h.iface.Load().(*pfcpiface.PFCPIface); ok && p != nil {
+					p.VerifSetTeidCursor(uint32(v))
+				}
+			}
+		}
+
+		h.send("OK TEIDCURSOR")
+	}
+}
